@@ -595,33 +595,44 @@ structure PoolGeom where
   pads : List (Nat × Nat)
 deriving Repr
 
+/-- spatial padding pairs handed to `lax.reduce_window`: `'VALID'` → none, `'SAME'` → the lax rule, explicit
+`(lo, hi)` pairs → themselves -/
+def poolPadSp (pad : PoolPad) (sp window strides : List Nat) : List (Nat × Nat) :=
+  match pad with
+  | .valid => List.replicate window.length (0, 0)
+  | .same => (List.range window.length).map (fun j => samePads (nth sp j) (nth window j) (nth strides j))
+  | .explicit ps => ps
+
 /-- `pool`: window/strides are augmented with 1s for the batch dims and the feature dim; a missing batch dim is
-added and removed.  Returns the per-axis geometry for the full (batched) rank.
+added and removed.  Returns (single-example?, batched shape, per-axis geometry for the full batched rank).
 `origPadding = true` reproduces the code before the repair (`((0,0),) + padding + ((0,0),)`: a single leading pair
 whatever the number of batch dims, which lax rejects when there are two or more). -/
-def poolGeomGen (origPadding : Bool) (shape window strides : List Nat) (pad : PoolPad) :
-    Except String (Bool × List Nat × PoolGeom) := do
+def poolGeomCore (origPadding : Bool) (shape window strides : List Nat) (pad : PoolPad) : Bool × List Nat × PoolGeom :=
   let nw := window.length
-  if shape.length < nw + 1 then throw "Rank"
   let strides := if strides.isEmpty then List.replicate nw 1 else strides
-  if strides.length ≠ nw then throw "Strides"
   let nb := shape.length - (nw + 1)
   let single := nb = 0
   let shape' := if single then 1 :: shape else shape
   let nb' := if single then 1 else nb
   let ones := List.replicate nb' 1
-  let dims := ones ++ window ++ [1]
-  let strd := ones ++ strides ++ [1]
   let sp := (shape'.drop nb').take nw
-  let padSp ← match pad with
-    | .valid => pure (List.replicate nw (0, 0))
-    | .same => pure ((List.range nw).map (fun j => samePads (nth sp j) (nth window j) (nth strides j)))
-    | .explicit ps => if ps.length = nw then pure ps else throw "BadPadding"
-  let pads := match pad with
-    | .explicit _ => (if origPadding then [(0, 0)] else List.replicate nb' (0, 0)) ++ padSp ++ [(0, 0)]
-    | _ => List.replicate nb' (0, 0) ++ padSp ++ [(0, 0)]
-  if pads.length ≠ shape'.length then throw "PadRank"
-  .ok (single, shape', ⟨dims, strd, pads⟩)
+  let padSp := poolPadSp pad sp window strides
+  let lead := match pad with
+    | .explicit _ => if origPadding then [(0, 0)] else List.replicate nb' (0, 0)
+    | _ => List.replicate nb' (0, 0)
+  (decide single, shape', ⟨ones ++ window ++ [1], ones ++ strides ++ [1], lead ++ padSp ++ [(0, 0)]⟩)
+
+def poolGeomGen (origPadding : Bool) (shape window strides : List Nat) (pad : PoolPad) :
+    Except String (Bool × List Nat × PoolGeom) := do
+  let nw := window.length
+  if shape.length < nw + 1 then throw "Rank"
+  if (if strides.isEmpty then List.replicate nw 1 else strides).length ≠ nw then throw "Strides"
+  match pad with
+  | .explicit ps => if ps.length ≠ nw then throw "BadPadding"
+  | _ => pure ()
+  let r := poolGeomCore origPadding shape window strides pad
+  if r.2.2.pads.length ≠ r.2.1.length then throw "PadRank"
+  .ok r
 
 def poolGeom := poolGeomGen false
 def poolGeomOrig := poolGeomGen true
@@ -631,41 +642,58 @@ def poolOutShape (shape : List Nat) (g : PoolGeom) : List Nat :=
     let p := g.pads.getD j (0, 0)
     outLen (p.1 + nth shape j + p.2) (nth g.window j) (nth g.strides j))
 
-/-- the in-range source indices of the window at output position `o` -/
-def windowSrcs (shape : List Nat) (g : PoolGeom) (o : List Nat) : List (List Nat) :=
-  (indices g.window).filterMap (fun w =>
+/-- every position of the window placed at output position `o`: `some src` inside the data, `none` in the padding -/
+def windowAll (shape : List Nat) (g : PoolGeom) (o : List Nat) : List (Option (List Nat)) :=
+  (indices g.window).map (fun w =>
     ((List.range shape.length).map (fun j =>
       let p : Nat := nth o j 0 * nth g.strides j + nth w j 0
       let lo := (g.pads.getD j (0, 0)).1
       if lo ≤ p ∧ p < lo + nth shape j then some (p - lo) else none)).mapM id)
 
+/-- the in-range source indices of the window at output position `o` -/
+def windowSrcs (shape : List Nat) (g : PoolGeom) (o : List Nat) : List (List Nat) :=
+  (windowAll shape g o).filterMap id
+
 /-- sum pooling (`lax.reduce_window(x, 0, add, …)`): padding contributes 0 -/
 def sumPool (x : Tensor R) (g : PoolGeom) : Tensor R :=
   Tensor.ofFn (poolOutShape x.shape g) (fun o => sumOver (windowSrcs x.shape g o) x.get)
 
+/-- `pool(jnp.ones(div_shape), 0., lax.add, …)` at one output position: an all-ones array pooled with the same
+geometry (padded positions contribute the init value 0) -/
+def pooledOnes (shape : List Nat) (g : PoolGeom) (o : List Nat) : Nat :=
+  (windowAll shape g o).foldl (fun acc s => acc + (match s with | some _ => 1 | none => 0)) 0
+
 /-- `avg_pool`: numerator and denominator.  `count_include_pad` divides by `prod(window)`, otherwise by the
-pooled all-ones array (= number of in-range window positions). -/
+pooled all-ones array. -/
 def avgPoolParts (x : Tensor R) (window strides : List Nat) (pad : PoolPad) (countIncludePad : Bool) :
     Except String (List Nat × List (R × Nat)) := do
   let (single, shape', g) ← poolGeom x.shape window strides pad
   let x' := x.reshape shape'
   let num := sumPool x' g
   let outShape := if single then num.shape.drop 1 else num.shape
-  let den (o : List Nat) : Nat := if countIncludePad then prod window else (windowSrcs shape' g o).length
+  let den (o : List Nat) : Nat := if countIncludePad then prod window else pooledOnes shape' g o
   .ok (outShape, (indices num.shape).map (fun o => (num.get o, den o)))
 
-/-- `max_pool` / `min_pool` over `Int`; `none` = the identity element (∓inf) when the window holds padding only -/
+/-- extended integers for `max_pool` / `min_pool`: `none` is the init value (−inf for max, +inf for min), the identity
+of the reduction -/
+def extCombine (isMax : Bool) (a b : Option Int) : Option Int :=
+  match a, b with
+  | none, b => b
+  | a, none => a
+  | some u, some v => some (if isMax then max u v else min u v)
+
+/-- `lax.reduce_window(x, ∓inf, max/min, …)` at one output position: every window position takes part, positions in the
+padding carry the init value -/
+def extremeAt (isMax : Bool) (x : Tensor Int) (g : PoolGeom) (o : List Nat) : Option Int :=
+  (windowAll x.shape g o).foldl (fun acc s => extCombine isMax acc (s.map x.get)) none
+
+/-- `max_pool` / `min_pool` over `Int`; a `none` entry is ∓inf (the window holds padding only) -/
 def extremePool (isMax : Bool) (x : Tensor Int) (window strides : List Nat) (pad : PoolPad) :
     Except String (List Nat × List (Option Int)) := do
   let (single, shape', g) ← poolGeom x.shape window strides pad
   let x' := x.reshape shape'
   let outShape := poolOutShape shape' g
-  let red (vs : List Int) : Option Int :=
-    match vs with
-    | [] => none
-    | v :: rest => some (rest.foldl (fun a b => if isMax then max a b else min a b) v)
-  .ok (if single then outShape.drop 1 else outShape,
-       (indices outShape).map (fun o => red ((windowSrcs shape' g o).map x'.get)))
+  .ok (if single then outShape.drop 1 else outShape, (indices outShape).map (extremeAt isMax x' g))
 
 /-! ## 11. normalisation statistics (`_compute_stats`, `_normalize`) over `Rat` -/
 
